@@ -2,6 +2,8 @@
 (and, as a self-check, on the model's traces). A monitor returns a list of violation strings (empty = pass).
 They decide nothing about the model: the theorems do that. They turn a broken tie into a concrete replay."""
 
+from spec import check_sequential
+
 PULL_OPS = ("next", "nextv", "chunk", "bufnext", "foreach", "enumforeach", "fold", "values", "idsvalues")
 LOOP_OPS = ("foreach", "enumforeach", "fold", "values", "idsvalues")
 
@@ -220,6 +222,10 @@ def check_C03(tr):
     bad = []
     c = tr.case
     L = c.src_len()
+    if (tr.stuck() or tr.hang) and not c.frozen and not any(o.panic for o in tr.ops):
+        for oi in tr.ops:
+            if oi.op in ("chunk", "bufnext") and oi.ret is None:
+                bad.append("chunk pull called at line %d neither reports the end nor returns a chunk (it waits forever)" % oi.call)
     for oi in tr.ops:
         if oi.op not in ("chunk", "bufnext") or not oi.rtoks or oi.rtoks[0] != "chunk":
             continue
@@ -252,6 +258,7 @@ def check_C03(tr):
 def check_C04(tr):
     bad = []
     c = tr.case
+    bad += check_sequential(tr)
     if c.has_op("skip", "get") or (c.is_iter() and not c.fused()):
         return bad
     pulls = [o for o in tr.pulls() if o.slot == 0]
@@ -656,7 +663,7 @@ def check_C16(tr):
             bad.append("next_chunk(0) delivered something (line %d)" % oi.call)
     if tr.aborted:
         bad.append("the process aborted")
-    bad += check_fidelity(tr) + check_no_dup(tr) + check_C03(tr)
+    bad += check_fidelity(tr) + check_no_dup(tr) + check_C03(tr) + check_sequential(tr)
     return bad
 
 
